@@ -109,10 +109,10 @@ with arel_arms : list (expr * expr) -> list (expr * expr) -> Prop :=
 | ara_nil : arel_arms [] []
 | ara_cons c c' v v' l l' : arel c c' -> arel v v' -> arel_arms l l' -> arel_arms ((c, v) :: l) ((c', v') :: l').
 
-Scheme arel_mind := Induction for arel Sort Prop
-  with arel_list_mind := Induction for arel_list Sort Prop
-  with arel_seq_mind := Induction for arel_seq Sort Prop
-  with arel_arms_mind := Induction for arel_arms Sort Prop.
+Scheme arel_mind := Minimality for arel Sort Prop
+  with arel_list_mind := Minimality for arel_list Sort Prop
+  with arel_seq_mind := Minimality for arel_seq Sort Prop
+  with arel_arms_mind := Minimality for arel_arms Sort Prop.
 Combined Scheme arel_mutind from arel_mind, arel_list_mind, arel_seq_mind, arel_arms_mind.
 
 (* programs: main routine and every subroutine body related; names free *)
